@@ -83,6 +83,10 @@ def reduce_model(case, drv, obs):
     return realcli.reduce_model(case, obs) if drv == "realcli" else obs
 
 
+def shrink_budget(case):
+    return 0 if case[0].startswith("e") else 12
+
+
 def cli_mk(cmds, rng):
     """the command-line client (`nun-db exec`) against the real server's HTTP listener: its body is 'auth <user> <pwd>; <commands>'"""
     ops = setup_ops()
